@@ -5,13 +5,28 @@ V = os.path.dirname(os.path.dirname(os.path.abspath(__file__)))
 sys.path.insert(0, V)
 os.environ['ORV_NO_INLINE'] = '1'
 from orv import facts
+from orv.normalize import local_keys
 ids = set()
-for c in ('F', 'P', 'P_par', 'F_seq'):
+locs = {}
+for c in list(facts.CONFIGS):
     for f in facts.load(c).fns.values():
         if (f.d.get('loc') or '').startswith(facts.REPO.rstrip('/') + '/'):
             ids.add(f.id)
+            if f.d.get('body'):
+                ks = local_keys(f.d['body'])
+                if ks:
+                    # multiset union over the configurations
+                    cur = [tuple(x) for x in locs.get(f.id, [])]
+                    left = list(cur)
+                    for k in map(tuple, ks):
+                        if k in left:
+                            left.remove(k)
+                        else:
+                            cur.append(k)
+                    locs[f.id] = sorted(cur)
 p = os.path.join(V, 'orv', 'inventory.json')
 old = json.load(open(p))
 old['functions'] = sorted(ids)
+old['locals'] = {k: [list(x) for x in locs[k]] for k in sorted(locs)}
 json.dump(old, open(p, 'w'), indent=0)
-print(len(ids), 'functions')
+print(len(ids), 'functions', sum(len(v) for v in locs.values()), 'locals')
